@@ -29,6 +29,9 @@ impl Group for C11Sim {
             c("forget 0|restart|hb"),
             c("vh 0 g 0|rv 0|scp 0 0|cpr 0 g|scp 0 1|restart|vh 0 g 1|rv 0|sh 0|restart|rv 0"),
             c("al add g|ks 1000|newch 4|forget 1|blk+ g|blk+ g|blk- g|restart|newch 4|al set gg"),
+            // closing through either entry point must be durable
+            c("vh 0 g 0|rv 0|scp 0 0|scp 0 0|cpr 0 g|mc1 b|mc1 g|restart|vh 0 g 3"),
+            c("vh 0 g 0|rv 0|scp 0 0|scp 0 0|cpr 0 g|mc g|restart|vh 0 g 3"),
         ]
     }
     fn gen_case(&self, rng: &mut Rng, tier: Tier) -> Vec<String> {
